@@ -239,15 +239,33 @@ def showPg (pg : List (String × String × List Nat)) : String :=
   let es := pg.map (fun e => s!"{word e.1}/{word e.2.1}:{showNats (sortNats e.2.2)}")
   ";".intercalate (es.toArray.qsort (· < ·)).toList
 
-/-- The observable projection of a step. -/
-def showObs (ses : Ses) (eff : List (Effect D)) : String :=
+def isSubseq : List String → List String → Bool
+  | [], _ => true
+  | _ :: _, [] => false
+  | a :: as, b :: bs => if a == b then isSubseq as bs else isSubseq (a :: as) bs
+
+/-- what the implementation reported as sent, if parsable -/
+def implSent (impl : String) : Option (List String) :=
+  match words impl with
+  | a :: _ =>
+    if a.startsWith "sent=[" && a.endsWith "]" then
+      let inner := ((a.drop 6).toString.dropEnd 1).toString
+      some (if inner == "" then [] else splitOnChar inner '|')
+    else none
+  | [] => none
+
+/-- The observable projection of a step. Frames queued in a step that also stops the session
+may never reach the wire (the writer is torn down with the session): for such a step any
+subsequence of the predicted frames is accepted, nothing beyond them. -/
+def showObs (ses : Ses) (eff : List (Effect D)) (impl : String := "") : String :=
   let sent := eff.filterMap (fun e => match e with
     | .send f => some (showFrame f)
     | _ => none)
   -- a delivered call is answered by the probe: the reply forwarder sends a `reply` frame
-  let replies := eff.filterMap (fun e => match e with
-    | .deliverLocal pid true => some s!"reply:{pid}"
-    | _ => none)
+  -- (replies are produced concurrently by the forwarder tasks: listed last, by ascending pid)
+  let replies := (sortNats (eff.filterMap (fun e => match e with
+    | .deliverLocal pid true => some pid
+    | _ => none))).map (fun pid => s!"reply:{pid}")
   -- deliveries grouped by target (ascending pid), in arrival order per target: the order in
   -- which different actors get to run is not part of the observation
   let dl := eff.filterMap (fun e => match e with
@@ -256,10 +274,14 @@ def showObs (ses : Ses) (eff : List (Effect D)) : String :=
   let probe := (sortNats (dl.map (·.1)).eraseDups).flatMap (fun p =>
     (dl.filter (·.1 == p)).map (fun (x : Nat × Bool) => s!"{x.1}:{if x.2 then "call" else "cast"}"))
   let dead := ses.st.stopped
+  let allSent := sent ++ replies
+  let allSent := match dead, implSent impl with
+    | true, some is => if isSubseq is allSent then is else allSent
+    | _, _ => allSent
   let proxies := if dead then [] else sortNats ses.st.proxies
   let pg := if dead then "" else showPg ses.pg
   let listed := ses.authed && !dead
-  s!"sent=[{"|".intercalate (sent ++ replies)}] probe=[{"|".intercalate probe}] proxies=[{showNats proxies}] pg=[{pg}] listed={if listed then 1 else 0} alive={if dead then 0 else 1}"
+  s!"sent=[{"|".intercalate allSent}] probe=[{"|".intercalate probe}] proxies=[{showNats proxies}] pg=[{pg}] listed={if listed then 1 else 0} alive={if dead then 0 else 1}"
 
 /-! ### the run-time oracle (`C17.ok` on the implementation's observations alone) -/
 
@@ -426,7 +448,7 @@ def step (st : St) (op impl : String) : St × StepOut :=
       let nt := eff.any (·.gated) || s'.stopped
       let nc := (eff.filter (fun e => match e with | .connect _ => true | _ => false)).length
       ({ st.set (k.toNat?.getD 0) sesO with connects := st.connects + nc },
-       { model := showObs ses' eff, oracle := orc, nontrivial := nt })
+       { model := showObs ses' eff impl, oracle := orc, nontrivial := nt })
     | _, _ => (st, { model := "bad-op" })
   | "batch" :: k :: fs :: _ =>
     match k.toNat?.bind st.get?, (splitOnChar fs '+').mapM parseFrame? with
@@ -445,7 +467,7 @@ def step (st : St) (op impl : String) : St × StepOut :=
         | _ => false)
       let (sesO, orc) := oracleOn ses' presented tbl rem impl
       let nt := eff.any (·.gated) || s'.stopped
-      (st.set (k.toNat?.getD 0) sesO, { model := showObs ses' eff, oracle := orc, nontrivial := nt })
+      (st.set (k.toNat?.getD 0) sesO, { model := showObs ses' eff impl, oracle := orc, nontrivial := nt })
     | _, _ => (st, { model := "bad-op" })
   | "local" :: k :: what :: pid :: rem :: _ =>
     match k.toNat?.bind st.get?, pid.toNat? with
